@@ -17,7 +17,9 @@ ASSUMPTIONS = [
     "-ffp-contract=fast could fuse the two and is outside the model; libm modf/ldexp are exact; tied by the bit-exact comparison of threshold_ on every run",
     "the host is little-endian (memcpy of the first 8 trace-id bytes into a uint64_t); tied by the correspondence run",
     "trace states are represented by their header text; the generator only produces headers h with ToHeader(FromHeader(h)) = h (distinct simple keys, at most 4 members)",
-    "no span is active on the driver's thread when Tracer::StartSpan is called (the parent comes from StartSpanOptions::parent as a SpanContext)",
+    "SPAN cases: no span is active on the driver's thread (the parent comes from StartSpanOptions::parent as a SpanContext); SPANCX cases: the thread's current "
+    "context and the Context given as options.parent are built by the driver with Context::SetValue(kIsRootSpanKey, ..) and trace::SetSpan(.., DefaultSpan(parent)); "
+    "which span IS the parent is taken from the documentation of StartSpanOptions::parent (span in the context first, is_root_span marker second, then the active span)",
     "`consults its root sampler only for spans without a valid parent` is observed with a call-counting Sampler wrapped around the delegate",
     "the description text of TraceIdRatioBasedSampler goes through std::to_string(double) (printf %f); the model assumes glibc's correctly rounded, ties-to-even conversion; not part of the property, only of the correspondence",
 ]
@@ -198,6 +200,65 @@ def rnd_pair(rng):
     return b1, b2
 
 
+def ctx_shape(rng, kind):
+    """a span context of a given kind: vs/vu = valid sampled/unsampled, r/l = remote/local, inv = invalid; other flag bits random"""
+    if kind == "NONE":
+        return "NONE"
+    tid, sid = rng.bytes(16), rng.bytes(8)
+    if tid == bytes(16):
+        tid = b"\x01" + bytes(15)
+    if sid == bytes(8):
+        sid = b"\x01" + bytes(7)
+    if kind == "inv":
+        k = rng.below(3)
+        if k != 1:
+            tid = bytes(16)
+        if k != 0:
+            sid = bytes(8)
+        return "%s %s %d %d %s" % (hx(tid), hx(sid), rng.below(256), rng.below(2), hx(rng.choice(TS)))
+    f = (rng.below(128) << 1) | (1 if kind[1] == "s" else 0)
+    return "%s %s %d %d %s" % (hx(tid), hx(sid), f, 1 if kind[2] == "r" else 0, hx(rng.choice(TS)))
+
+
+SPAN_KINDS = ["NONE", "vsr", "vsl", "vur", "vul", "inv"]
+
+
+def spancx(rng, s, cur_marker, cur_kind, arg):
+    aim = aim_of_sampler(s)
+    return "SPANCX %s | %d %s | %s | %s %d %s" % (s, cur_marker, ctx_shape(rng, cur_kind), arg, hx(rnd_tid(rng, aim)), rng.below(2), rnd_extra(rng))
+
+
+def rnd_arg(rng):
+    k = rng.below(8)
+    if k == 0:
+        return "IMPL"
+    if k == 1:
+        return "CUR"
+    if k == 2:
+        return "SC " + ctx_shape(rng, rng.choice(SPAN_KINDS[1:]))
+    return "CX %d %s" % (rng.choice([0, 1, 1, 1, 2]), ctx_shape(rng, rng.choice(SPAN_KINDS)))
+
+
+def gen_spancx(rng, n):
+    out = []
+    mid = [bits(0.5), bits(0.25), bits(0.01), bits(0.9)]
+    roots = ["ON", "OFF", "RATIO %d" % bits(0.0), "RATIO %d" % bits(1.0)] + ["RATIO %d" % b for b in mid[:2]]
+    samplers = ["PB " + r for r in roots] + ["PB PB OFF", "PB PB RATIO %d" % mid[0], "ON", "OFF", "RATIO %d" % mid[0]]
+    # every parent-context shape for every parent-based configuration, passed as an explicit Context and as the current context
+    for s in samplers:
+        for m in (0, 1, 2):
+            for k in SPAN_KINDS:
+                out.append(spancx(rng, s, rng.choice([0, 1, 2]), rng.choice(SPAN_KINDS), "CX %d %s" % (m, ctx_shape(rng, k))))
+                out.append(spancx(rng, s, m, k, "CUR"))
+                out.append(spancx(rng, s, m, k, "IMPL"))
+        for k in SPAN_KINDS[1:]:
+            out.append(spancx(rng, s, rng.choice([0, 1, 2]), rng.choice(SPAN_KINDS), "SC " + ctx_shape(rng, k)))
+    for _ in range(150 * n):
+        s = "PB " * rng.choice([0, 1, 1, 1, 2]) + rnd_leaf(rng)
+        out.append(spancx(rng, s, rng.choice([0, 1, 1, 2]), rng.choice(SPAN_KINDS), rnd_arg(rng)))
+    return out
+
+
 def gen(rng, tier):
     n = 4 if tier == "quick" else 40
     cases = []
@@ -245,6 +306,8 @@ def gen(rng, tier):
     for _ in range(400 * n):
         s = rnd_sampler(rng)
         cases.append("SPAN %s | %s | %s %d %s" % (s, rnd_parent(rng), hx(rnd_tid(rng, aim_of_sampler(s))), rng.below(2), rnd_extra(rng)))
+    # the parent arrives through contexts (explicit Context / current context, with and without the is_root_span marker)
+    cases += gen_spancx(rng, n)
     # descriptions
     for s in ("ON", "OFF", "PB ON", "PB OFF", "PB PB ON", "PB PB PB OFF"):
         cases.append("DESC " + s)
@@ -277,6 +340,9 @@ def neighbours(rng, cases):
             v = struct.unpack("<Q", tid[:8])[0]
             for _ in range(200):
                 out.append(mono(nudge(rng, b1, 8), nudge(rng, b2, 8), tid_with_prefix(rng, min(U64, max(0, v + rng.below(8193) - 4096)))))
+        elif t[0] == "SPANCX":
+            for _ in range(40):
+                out.append(spancx(rng, c.split(" | ")[0][len("SPANCX "):], rng.choice([0, 1, 2]), rng.choice(SPAN_KINDS), rnd_arg(rng)))
         elif t[0] in ("SS", "PB", "SPAN"):
             i = t.index("|")
             for f in range(0, 256, 3):
